@@ -13,7 +13,7 @@ vars == <<i, done>>
 
 Clauses(r) ==
     IF ~r.transparent THEN {}          \* reported as machinery failure by the harness
-    ELSE (IF r.obs = "ok" THEN {IF r.op = "verify" THEN "C06.VerifySucceededDespiteFault"
+    ELSE (IF r.obs = "ok" THEN {IF r.op \in {"verify", "verifyk"} THEN "C06.VerifySucceededDespiteFault"
                                 ELSE IF r.op = "findtop" THEN "C06.TopLevelSearchSucceededDespiteFault"
                                 ELSE "C06.UpdateSucceededDespiteFault"} ELSE {})
          \cup (IF r.op = "update" /\ r.changed THEN {"C06.WroteDespiteFault"} ELSE {})
